@@ -11,15 +11,67 @@ import (
 	"rcheck/engine"
 )
 
+// reservedDispatchSites returns the instructions of hmd that hand the packet to a reserved
+// service: the dynamic call of a handler looked up in the reservedServices table, or — when that
+// call sits in a private helper of hmd (dispatchReservedService on the pinned tree) — the calls
+// of the helper.
+func reservedDispatchSites(p *engine.Program, hmd *ssa.Function) []ssa.Instruction {
+	out := reservedHandlerCallsIn(p, hmd)
+	for _, ci := range engine.CallsIn(hmd) {
+		c := ci.Common().StaticCallee()
+		if c == nil || len(c.Blocks) == 0 || c == hmd || privateHelperOf(p, c, map[string]bool{engine.FuncName(hmd): true}) == "" {
+			continue
+		}
+		if len(reservedHandlerCallsIn(p, c)) > 0 {
+			out = append(out, ci)
+		}
+	}
+	return out
+}
+
+// reservedHandlerCallsIn lists the dynamic calls in fn whose callee was looked up in the
+// reservedServices table.
+func reservedHandlerCallsIn(p *engine.Program, fn *ssa.Function) []ssa.Instruction {
+	rs := p.Field("netceptor", "Netceptor", "reservedServices")
+	if rs == nil {
+		return nil
+	}
+	fromTable := func(v ssa.Value) bool {
+		for i := 0; i < 6 && v != nil; i++ {
+			switch x := engine.Unwrap(v).(type) {
+			case *ssa.Extract:
+				v = x.Tuple
+			case *ssa.Lookup:
+				f, _ := engine.FieldOfLoad(x.X)
+				return f == rs
+			case *ssa.Phi:
+				// `svc, ok := table[k]; if ok {svc(md)}` keeps the extract; anything else is not recognised
+				return false
+			default:
+				return false
+			}
+		}
+		return false
+	}
+	var out []ssa.Instruction
+	for _, ci := range engine.CallsIn(fn) {
+		if ci.Common().StaticCallee() == nil && !ci.Common().IsInvoke() && fromTable(ci.Common().Value) {
+			out = append(out, ci)
+		}
+	}
+	return out
+}
+
 // deliveryTargets returns the instructions in handleMessageData that hand a packet on:
 // dispatch to a reserved service, send to a listener's receive channel, forward.
 func deliveryTargets(p *engine.Program, hmd *ssa.Function) (targets []ssa.Instruction, notices []ssa.CallInstruction) {
 	recvChan := p.Field("netceptor", "PacketConn", "recvChan")
+	reserved := reservedDispatchSites(p, hmd)
 	for _, b := range hmd.Blocks {
 		for _, in := range b.Instrs {
 			switch x := in.(type) {
 			case ssa.CallInstruction:
-				if engine.IsCallTo(x.Common(), "(*netceptor.Netceptor).dispatchReservedService", "(*netceptor.Netceptor).forwardMessage") {
+				if engine.IsCallTo(x.Common(), "(*netceptor.Netceptor).forwardMessage") || isOneOf(in, reserved) {
 					targets = append(targets, in)
 				}
 				if engine.IsCallTo(x.Common(), "(*netceptor.Netceptor).sendUnreachable") {
